@@ -53,6 +53,8 @@ pub struct Machine {
     pub nodes: BTreeMap<u64, NodeId>,
     /// every package id ever handed out (identifiers of removed packages must not come back)
     pub seen_pkg_ids: HashSet<PackageId>,
+    /// identifiers of unregistered packages: every call with one of them must be refused (documented panic)
+    pub dead_pkg_ids: Vec<PackageId>,
 }
 
 #[derive(Debug, Clone)]
@@ -77,7 +79,38 @@ impl Machine {
             reg: BTreeMap::new(),
             nodes: BTreeMap::new(),
             seen_pkg_ids: HashSet::new(),
+            dead_pkg_ids: Vec::new(),
         }
+    }
+
+    /// The identifier of an unregistered package stays invalid, also after its slot was reused:
+    /// `instantiate`, `unregister_package` and indexing are documented to panic for it.
+    pub fn stale_package_probe(&self) -> Vec<String> {
+        let mut bad = Vec::new();
+        for id in &self.dead_pkg_ids {
+            let id = *id;
+            let mut g = self.world.graph.clone();
+            if crate::util::guarded(move || {
+                let _ = g.instantiate(id);
+            })
+            .is_ok()
+            {
+                bad.push(format!("instantiate() accepted the identifier {id:?} of an unregistered package"));
+            }
+            let mut g = self.world.graph.clone();
+            if crate::util::guarded(move || g.unregister_package(id)).is_ok() {
+                bad.push(format!("unregister_package() accepted the identifier {id:?} of an unregistered package"));
+            }
+            let g = self.world.graph.clone();
+            if crate::util::guarded(move || {
+                let _ = g[id].name().to_string();
+            })
+            .is_ok()
+            {
+                bad.push(format!("indexing accepted the identifier {id:?} of an unregistered package"));
+            }
+        }
+        bad
     }
 
     pub fn node(&self, n: u64) -> NodeId {
@@ -123,6 +156,7 @@ impl Machine {
                 let id = self.reg[&op.s1];
                 g.unregister_package(id);
                 self.reg.remove(&op.s1);
+                self.dead_pkg_ids.push(id);
                 Ok(None)
             }
             "define_type" => {
@@ -264,6 +298,10 @@ impl Machine {
                     },
                     None => (0, false),
                 };
+                // a slot may just have been reused: the identifiers of the packages that died stay invalid
+                if op.op == "register" && problem.is_none() && !self.dead_pkg_ids.is_empty() {
+                    problem = self.stale_package_probe().into_iter().next();
+                }
                 Applied {
                     tag: "ok".into(),
                     detail: String::new(),
@@ -880,6 +918,16 @@ pub fn check_state(lib: &Lib, m: &Machine, want: &Value, op: Option<&Op>, f: &mu
                     what: q,
                     op: op.map(|o| o.to_json()),
                 });
+            }
+            // only where it can change: after a package was registered or unregistered
+            if op.map(|o| o.op == "register" || o.op == "unregister").unwrap_or(false) {
+                for q in m.stale_package_probe() {
+                    f.push(Finding {
+                        class: "query",
+                        what: q,
+                        op: op.map(|o| o.to_json()),
+                    });
+                }
             }
         }
     }
